@@ -340,18 +340,21 @@ Default(T) ==
            [] u.k = "array" -> [items |-> [i \in 1..u.n |-> Default(u.e)]]
            [] u.k = "map" -> [pairs |-> <<>>]
 \* two distinct keys per key type
-Key1(T) == IF T.k = "any" THEN [t |-> [k |-> "str"], v |-> [len |-> 2, fill |-> "a"]] ELSE IF T.k = "bool" THEN [c |-> "t"] ELSE Default(T)
+Key1(T) == IF T.k = "array" THEN [items |-> <<[c |-> "pat"], [c |-> "max"]>>] ELSE IF T.k = "any" THEN [t |-> [k |-> "str"], v |-> [len |-> 2, fill |-> "a"]] ELSE IF T.k = "bool" THEN [c |-> "t"] ELSE Default(T)
 Key2(T) ==
   CASE T.k = "bool" -> [c |-> "f"]
     [] T.k \in NumKinds -> [c |-> "max"]
     [] T.k = "str" -> [len |-> 255, fill |-> "utf"]
     [] T.k = "atom" -> [c |-> "c1"]
     [] T.k = "any" -> [t |-> [k |-> "u8"], v |-> [c |-> "max"]]
+    [] T.k = "array" -> [items |-> <<[c |-> "max"], [c |-> "pat"]>>]
     [] T.k = "reg" -> (LET u == Reg[T.name].u IN IF u.of = "str" THEN [len |-> 255, fill |-> "utf"] ELSE [c |-> "max"])
 
 LeafT == {[k |-> x] : x \in LeafKinds}
 RegT == {[k |-> "reg", name |-> n] : n \in RegNames}
-KeyT == {[k |-> x] : x \in {"str", "i16", "u64", "atom", "bool", "any"}} \cup {[k |-> "reg", name |-> n] : n \in {"NStr", "NI16"} \cap RegNames}
+\* (an array is the only unnamed composite that can be a key)
+KeyT == {[k |-> x] : x \in {"str", "i16", "u64", "atom", "bool", "any"}} \cup {[k |-> "reg", name |-> n] : n \in {"NStr", "NI16", "Env"} \cap RegNames}
+        \cup {[k |-> "array", n |-> 2, e |-> [k |-> "i16"]]}
 T0 == LeafT \cup RegT
 \* ([]uint8 is the byte slice: the leaf "bin")
 Comp(S) == {[k |-> "slice", e |-> e] : e \in S \ {[k |-> "u8"]}} \cup {[k |-> "array", n |-> n, e |-> e] : n \in {0, 2}, e \in S}
